@@ -2,8 +2,10 @@ package main
 
 import (
 	"fmt"
+	"go/constant"
 	"go/token"
 	"go/types"
+	"strconv"
 	"strings"
 
 	"golang.org/x/tools/go/ssa"
@@ -243,16 +245,25 @@ func c17(c *ctx) {
 
 	// ------------------------------------------------------------------ R4
 	r.Rule("R4", "MPT", "bounded frame: the decrypted length header is compared with MaxDataSize before it is used to slice the plaintext buffer; receiveLengthPrefixed bounds the message length before allocating", 2)
-	c.mpt(mptSpec{
-		rule: "R4", fn: read, events: evSet{},
-		atom: func(v ssa.Value) (string, bool) {
-			if b, ok := v.(*ssa.BinOp); ok && b.Op == token.GTR && strings.HasSuffix(c.p.path(b.X), "Uint32($0.unread)") == false {
-				if strings.Contains(c.p.path(b.X), "binary.littleEndian).Uint32(") || strings.Contains(c.p.path(b.X), ".Uint32(") {
-					return "len>max", false
+	constLE := func(short, name string) func(string) bool {
+		lim := int64(-1)
+		if pk := c.p.pkg(short); pk != nil {
+			if o, ok := pk.Types.Scope().Lookup(name).(*types.Const); ok {
+				if v, exact := constant.Int64Val(constant.ToInt(o.Val())); exact {
+					lim = v
 				}
 			}
-			return "", false
-		},
+		}
+		r.Anchor(lim >= 0, short+"."+name)
+		return func(p string) bool {
+			v, err := strconv.ParseInt(p, 10, 64)
+			return err == nil && lim >= 0 && v >= 0 && v <= lim
+		}
+	}
+	isMaxData := constLE("lib/crypto", "MaxDataSize")
+	c.mpt(mptSpec{
+		rule: "R4", fn: read, events: evSet{},
+		atom: cmpAtoms(c.p, cmpSpec{"len>max", token.GTR, pathContains(".Uint32("), isMaxData}),
 		target: func(in ssa.Instruction, st *PState, e *pathEngine) string {
 			if sl, ok := in.(*ssa.Slice); ok && sl.High != nil && strings.Contains(c.p.path(sl.High), ".Uint32(") {
 				return "slice-by-length"
@@ -265,12 +276,7 @@ func c17(c *ctx) {
 	if recvLP := c.fnQuiet("p2p.receiveLengthPrefixed"); recvLP != nil {
 		c.mpt(mptSpec{
 			rule: "R4", fn: recvLP, events: evSet{},
-			atom: func(v ssa.Value) (string, bool) {
-				if b, ok := v.(*ssa.BinOp); ok && b.Op == token.GTR && strings.Contains(c.p.path(b.X), "Uint32(") {
-					return "len>max", false
-				}
-				return "", false
-			},
+			atom: cmpAtoms(c.p, cmpSpec{"len>max", token.GTR, pathContains("Uint32("), constLE("p2p", "maxMessageSize")}),
 			target: func(in ssa.Instruction, st *PState, e *pathEngine) string {
 				if ms, ok := in.(*ssa.MakeSlice); ok && strings.Contains(c.p.path(ms.Len), "Uint32(") {
 					return "alloc-by-length"
